@@ -119,6 +119,22 @@ pub fn run(tier: Tier) -> i32 {
                 }
             }
         }
+        // the longest symbol of the format: an end marker on a fully adverse path (18 input bytes)
+        {
+            let (mprog, mfirst, mlen) = corpus::adversarial_marker_best(230);
+            let it = corpus::Item { name: "adversarial-marker-230".into(), lc: 0, lp: 0, pb: 0, dict: 1 << 20, prog: mprog, marker: true, sized: false };
+            for k in [corpus::OptKind::Header, corpus::OptKind::ProvidedNone] {
+                if let Some(b) = it.build(k) {
+                    let start = b.table[mfirst - 1].0.saturating_sub(12);
+                    let mut opts = b.opts;
+                    opts.allow_incomplete = true;
+                    for bytewise in [false, true] {
+                        let init: Vec<u32> = if bytewise { vec![1; start] } else { stream_graph::write_all_history(&b.bytes, &opts, start) };
+                        jobs.push((format!("{} [{:?}] prefix {}; the marker takes {} bytes", it.name, k, if bytewise { "bytewise" } else { "at once" }, mlen), b.bytes.clone(), opts, init, Mode::Prefix { full: b.expect.clone(), table: b.table.clone(), header_len: b.header_len }));
+                    }
+                }
+            }
+        }
         par_for(jobs.len() as u64, |i| {
             let (label, bytes, opts, init, mode) = &jobs[i as usize];
             let g = stream_graph::explore_from(&ctx, bytes, opts, mode, label, init);
